@@ -25,6 +25,7 @@ H = "CPP/Clipper2Lib/include/clipper2/"
 
 CONTROLS = {
     "C01": [
+        ("winding counts narrowed to 8 bits", H + "clipper.engine.h", "\t\tint wind_cnt = 0;", "\t\tint8_t wind_cnt = 0;", "TYPE.wind-count"),
         ("clamped intersection takes its x at the top of the scanbeam", E, "        if (abs_dx1 < abs_dx2) ip.x = TopX(e1, ip.y);\n        else ip.x = TopX(e2, ip.y);", "        if (abs_dx1 < abs_dx2) ip.x = TopX(e1, top_y);\n        else ip.x = TopX(e2, top_y);", "IP.on-edge"),
         ("wrong cell Intersection/Positive", E, "        return (e.wind_cnt2 > 0);", "        return (e.wind_cnt2 >= 0);", "T.closed"),
         ("Union treats EvenOdd like Positive", E, "      default:\n        return (e.wind_cnt2 == 0);\n      }\n      break;\n\n    case ClipType::Difference:",
@@ -54,6 +55,7 @@ CONTROLS = {
          "        if (using_polytree_)\n        {\n          SetOwner(outrec, prevHotEdge->outrec);\n          outrec->is_open = false;\n        }", "CONFINE"),
     ],
     "C05": [
+        ("BuildTree64 builds open pieces as closed", E, "        if (BuildPath64(outrec->pts, reverse_solution_, true, path))\n          open_paths.emplace_back(std::move(path));\n        continue;", "        if (BuildPath64(outrec->pts, reverse_solution_, false, path))\n          open_paths.emplace_back(std::move(path));\n        continue;", "OPEN.flag"),
         ("BuildPathsD appends to what the caller's open vector held", E, "      solutionOpen->resize(0);\n      solutionOpen->reserve(outrec_list_.size());\n    }\n\n    // outrec_list_.size() is not static here because\n    // CleanCollinear below can indirectly add additional\n    // OutRec (via FixOutRecPts)",
          "      solutionOpen->reserve(outrec_list_.size());\n    }\n\n    // outrec_list_.size() is not static here because\n    // CleanCollinear below can indirectly add additional\n    // OutRec (via FixOutRecPts)", "OUTPUT.reset"),
         ("Union keeps open parts inside one of the regions", E, "case ClipType::Union: return (!is_in_subj && !is_in_clip);",
@@ -68,8 +70,8 @@ CONTROLS = {
         ("clean-up union of reversed paths with the wrong fill rule (tree output)", O, "\t\t\tc.Execute(ClipType::Union, FillRule::Negative, *solution_tree);",
          "\t\t\tc.Execute(ClipType::Union, FillRule::Positive, *solution_tree);", "OFFSET.cleanup"),
         ("reversed group offset with the unreversed sign", O, "\t\tgroup_delta_ = (group.is_reversed) ? -delta : delta;", "\t\tgroup_delta_ = delta;", "OFFSET.sign"),
-        ("round-join step values computed once and carried to the next group", O, "\t\tsteps_per_rad_ = steps_per_360 / (2 * PI);\n\t}",
-         "\t\tif (steps_per_rad_ <= 0.0) steps_per_rad_ = steps_per_360 / (2 * PI);\n\t}", "LOOP"),
+        ("round-join step values computed once and carried to the next group", O, "\t\tsteps_per_rad_ = steps_per_360 / (2 * PI);\n\t}\n\n\t//double min_area",
+         "\t\tif (steps_per_rad_ <= 0.0) steps_per_rad_ = steps_per_360 / (2 * PI);\n\t}\n\n\t//double min_area", "LOOP"),
         ("Paths64 Execute no longer clears the tree target", O, "\tsolution = &paths64;\n\tsolution_tree = nullptr;", "\tsolution = &paths64;", "TARGET.set"),
     ],
     "C19": [
@@ -158,6 +160,7 @@ CONTROLS = {
          "    if (path.size() == 3 && IsVerySmallTriangle(*op2)) return false;\n    return true;", "SIBLING.64-D"),
     ],
     "C17": [
+        ("export converter truncates instead of rounding", H + "clipper.export.h", "    {\n      double x = *v++ * scale;\n      double y = *v++ * scale;\n#ifdef USINGZ\n      z_type z = Reinterpret<z_type>(*v++);\n      path.emplace_back(x, y, z);", "    {\n      int64_t x = static_cast<int64_t>(*v++ * scale);\n      int64_t y = static_cast<int64_t>(*v++ * scale);\n#ifdef USINGZ\n      z_type z = Reinterpret<z_type>(*v++);\n      path.emplace_back(x, y, z);", "ROUND"),
         ("Z written by value conversion, read by bit copy", H + "clipper.export.h", "      *v++ = pt.x * scale;\n      *v++ = pt.y * scale;\n#ifdef USINGZ\n      *v++ = Reinterpret<double>(pt.z);",
          "      *v++ = pt.x * scale;\n      *v++ = pt.y * scale;\n#ifdef USINGZ\n      *v++ = static_cast<double>(pt.z);", "LAYOUT.z-codec"),
         ("reader skips one header element only", H + "clipper.export.h", "    size_t cnt2 = static_cast<size_t>(*v);\n    v += 2; \n    Path<T> path;",
@@ -172,6 +175,7 @@ CONTROLS = {
         ("partial sum can wrap", H + "clipper.core.h", "    const uint64_t x2 = hi(a) * lo(b) + hi(x1);", "    const uint64_t x2 = hi(a) * lo(b) + x1;", "P.multiply-no-wrap"),
     ],
     "C20": [
+        ("prior2 taken before the swap in SimplifyPath", H + "clipper.h", "        prior2 = prior;\n        prior = curr;", "        prior2 = GetPrior(prior, high, flags);\n        prior = curr;", "NEIGHBOURS.fresh"),
         ("inner scan of SimplifyPath uses >= where the outer test uses >", H + "clipper.h", "        } while (curr != start && distSqr[curr] > epsSqr);", "        } while (curr != start && distSqr[curr] >= epsSqr);", "EPS.threshold"),
         ("corner test against the raw previous vertex", H + "clipper.h", "      if (!IsCollinear(*prevIt, *srcIt, *(srcIt + 1)))", "      if (!IsCollinear(*(srcIt - 1), *srcIt, *(srcIt + 1)))", "TRIM.last-kept"),
         ("SimplifyPath emits a computed vertex", H + "clipper.h", "      if (!flags[i]) result.emplace_back(path[i]);", "      if (!flags[i]) result.emplace_back(MidPoint(path[i], path[i]));", "MEMBER"),
